@@ -131,9 +131,9 @@ func c02Frames(thorough bool, emit func(group string, fcs []frameCase)) {
 				switch proto {
 				case 6:
 					tp = tcpSeg(tcpOpts{sport: 40003, dport: 8081, seq: 1, flags: fSYN}, cl, ipServer, nil)
-					tp = append(tp, pay(40)...)[:pl]
+					tp = append(tp, pay(1600)...)[:pl]
 				case 17:
-					tp = append(udpDgram(4000, 9, pl, nil), pay(40)...)
+					tp = append(udpDgram(4000, 9, pl, nil), pay(1600)...)
 					if pl <= len(tp) {
 						tp = tp[:pl]
 					}
@@ -339,8 +339,10 @@ func runC02(c *core.Ctx) {
 			for i := 0; i < n; i++ {
 				ip := clientIP(i / 60000)
 				port := uint16(1024 + i%60000)
+				if i%256 == 0 {
+					core.Tick() // with a full table every attempt scans all 65,535 entries
+				}
 				if i%4096 == 0 {
-					core.Tick()
 					l.c.VerifDrainTx()
 				}
 				p, w := l.inject(frameTCP(ip, tcpOpts{sport: port, dport: 8081, seq: uint32(i), flags: fSYN}, nil))
